@@ -88,6 +88,8 @@ pub fn convolve_modn(
         (0..=512, 0..=524288) => (16384, 3, 17),
         (nbits, _) => panic!("cannot fit size {size} convolution with {nbits} bit coefficients"),
     };
+    #[cfg(yamaquasi_verif)]
+    verif_dispatch_record(zn.n.bits(), size, fsize, logpack, stride);
     assert!(zn.n.bits() <= 500);
     match fsize {
         1024 => _convolve_modn::<16>(zn, size, logpack, stride, p1, p2, res, offset),
@@ -1655,5 +1657,38 @@ impl<'a> MultiZmodP<'a> {
     /// Pointwise product of residue vectors (x *= y).
     pub fn verif_mul(&self, x: &mut [u64], y: &[u64]) {
         self.mul(x, y)
+    }
+}
+
+// ---------------------------------------------------------------------------
+// Verification hooks (add-only, compiled only with --cfg yamaquasi_verif).
+
+#[cfg(yamaquasi_verif)]
+thread_local! {
+    /// Recorder (per thread) of the dispatch decisions of `convolve_modn`:
+    /// (modulus bits, size, FFT element bits, logpack, stride).
+    pub static VERIF_DISPATCH: std::cell::RefCell<Option<Vec<(u32, usize, usize, u32, usize)>>> =
+        std::cell::RefCell::new(None);
+}
+
+#[cfg(yamaquasi_verif)]
+fn verif_dispatch_record(bits: u32, size: usize, fsize: usize, logpack: u32, stride: usize) {
+    VERIF_DISPATCH.with(|r| {
+        if let Some(v) = r.borrow_mut().as_mut() {
+            v.push((bits, size, fsize, logpack, stride));
+        }
+    });
+}
+
+#[cfg(yamaquasi_verif)]
+pub fn verif_ntt_primes() -> Vec<u64> {
+    NTT_PRIMES.iter().map(|p| p.0).collect()
+}
+
+#[cfg(yamaquasi_verif)]
+impl<'a> MultiZmodP<'a> {
+    /// (log2 of the largest supported transform, number of NTT primes)
+    pub fn verif_kw(&self) -> (u32, usize) {
+        (self.k, self.w)
     }
 }
